@@ -223,3 +223,58 @@ def run_sweep(args):
     out["stats"] = ev.stats.c
     out["distinct"] = sorted(ev.distinct)
     return out
+
+
+def run_siblings(args):
+    """C10: a document and each of its head-level siblings read one after the other (both orders) by fresh readers:
+    whatever a reader keeps across documents keyed on less than the whole document shows here."""
+    import faulthandler
+    import random
+    from . import docs
+    faulthandler.dump_traceback_later(2400, exit=True)
+    prop, tier = args["prop"], args["tier"]
+    ev = Evaluator(ZP, memo={}, stats=Stats())
+    ev.distinct = {}
+    out = {"runs": [], "violations": [], "errors": [], "samples": [], "schedules": [], "siblings": 0}
+    rng = random.Random(args["run_seed"])
+    hp = gen.HASH_POOL_QUICK if tier == "quick" else gen.HASH_POOL_THOROUGH
+    fmt = args["fmt"]
+    base = args.get("doc")
+    if base is None:
+        base = docs.gen_dfxp(rng, nlangs=1) if fmt == "dfxp" else docs.gen_sami(rng)
+    cls = docs.READER_OF[fmt]
+    sibs = docs.head_siblings(base, limit=args.get("limit", 40))
+    for k, sib in enumerate(sibs):
+        for order in (0, 1):
+            if time.time() > args.get("deadline", 1e18):
+                out["cut_by_deadline"] = True
+                break
+            first, second = (base, sib) if order == 0 else (sib, base)
+            hs = rng.sample(hp, 3)
+            plan = {"property": prop, "run_seed": args["run_seed"], "hash_seeds": {"history": hs[0], "ref": hs[1:]},
+                    "ops": [{"kind": "read", "cls": cls, "ctor": {}, "call": {}, "via": "fresh", "doc": {"inline": first}, "out": "s0", "session": 0},
+                            {"kind": "read", "cls": cls, "ctor": {}, "call": {}, "via": "fresh", "doc": {"inline": second}, "out": "s1", "session": 0}]}
+            try:
+                v, info = ev.evaluate(plan)
+            except HarnessError as e:
+                out["errors"].append({"run_seed": args["run_seed"], "error": str(e)[:1500]})
+                continue
+            out["siblings"] += 1
+            out["runs"].append({"run_seed": args["run_seed"], "sweep_ordinal": "sib%d.%d" % (k, order), "ops": 2, "judged": info["judged"],
+                                "precondition_failed": info["precondition_failed"], "verdict": v["class"] if v else None,
+                                "hist_digest": info.get("hist_digest"), "ref_digest": canon.digest("".join(info.get("ref_digests", []))), "fired_at": []})
+            if v is not None:
+                mplan, mv = Minimiser(ev, plan, v, budget_s=30).run()
+                path = write_replay(mplan, mv, mv["property"])
+                ok, log = confirm_replay(path)
+                rec = {"run_seed": args["run_seed"], "verdict": mv, "replay": path, "confirmed": ok, "ops": len(mplan["ops"]), "orig_ops": 2,
+                       "compact": compact_plan(mplan, 2000)}
+                if not ok:
+                    rec["replay_log"] = log
+                out["violations"].append(rec)
+                out["stats"] = ev.stats.c
+                out["distinct"] = sorted(ev.distinct)
+                return out
+    out["stats"] = ev.stats.c
+    out["distinct"] = sorted(ev.distinct)
+    return out
